@@ -48,6 +48,18 @@ BiSeek(E, R, bi, t) ==                                                    \* blo
        ELSE IF same /\ c < 0 THEN Linear(E, R, bi, t)
        ELSE Linear(E, R, SeekToRestart(R, bi, left), t)
 
+\* block_iter_seek_to_last / block_iter_prev: not called by the library itself (the reader only moves forward), kept in step
+\* with block.c all the same; MC_Block checks them against the abstract cursor, Trace_Block against the real functions
+RECURSIVE SkipTo(_,_,_,_)
+SkipTo(E, R, bi, lim) == IF BiValid(E, bi) /\ bi.nxt < lim THEN SkipTo(E, R, ParseNext(E, R, bi), lim) ELSE bi   \* "while (parse_next_key && next_entry_offset < lim)"
+SeekToLast(E, R, bi) == SkipTo(E, R, ParseNext(E, R, SeekToRestart(R, bi, NR(R) - 1)), Len(E) + 1)   \* block_iter_seek_to_last
+RECURSIVE Back(_,_,_)
+Back(R, ri, orig) == IF R[ri + 1] >= orig THEN (IF ri = 0 THEN -1 ELSE Back(R, ri - 1, orig)) ELSE ri    \* last restart point before the current entry
+BiPrev(E, R, bi) ==                                                       \* block_iter_prev (precondition: valid)
+    LET r == Back(R, bi.ri, bi.cur) IN
+    IF r = -1 THEN [bi EXCEPT !.cur = Len(E) + 1, !.ri = NR(R)]
+    ELSE SkipTo(E, R, ParseNext(E, R, SeekToRestart(R, bi, r)), bi.cur)
+
 (* ---------- reader.c: reader iterator ---------- *)
 InBoundR(it, k) == CASE it.kind = "iter"   -> TRUE
                      [] it.kind = "get"    -> k = it.k0
